@@ -7,6 +7,10 @@
      Enable; Access and, for the descriptions `Again` admits, the second round on the same handle (ClearHandle;
      [Disturb]; [Rewrite]; Reload; Access; Enable; Access) — are executed on the real classes, observations
      compared after every call; together they take every edge of the dump (checked).
+     Two more scripts run next to a *bystander*: a fixed world loaded from a second handle of the same map before
+     the world under test and left disabled, enabled after / before the world under test (EnableBy); the bystander
+     must stay silent until then and hear exactly its own load-time callbacks, the world under test nothing foreign.
+     The adapter also alternates ResourceMap.split_char between '/' and ':' from behaviour to behaviour.
 """
 import json
 import os
@@ -17,7 +21,7 @@ from .. import common, graph as graphmod, replay as rp, tla, tlc
 from ..adapters.worldload import WorldLoadAdapter
 
 INVARIANTS = ['TypeOK', 'LoadedEqualsDescribed', 'ReturnedDisabled', 'QuietWhileLoading', 'WorldLoadQueuedLast',
-              'OnEnable', 'NoFailure', 'BigStepAgrees']
+              'OnEnable', 'BystanderUndisturbed', 'NoFailure', 'BigStepAgrees']
 LENIENCIES = [
     'strings that begin with a marker but are not exactly of the form ("${a} tail", "${}") are not generated',
     'references nested inside list/dict arguments pass through unchanged (the statement speaks of string arguments)',
@@ -30,6 +34,9 @@ LENIENCIES = [
     'a Python object named by ${...} that is itself a string beginning with a marker is not generated',
     'the second round (clear the handle, load again) is explored for file handles and descriptions with at most one '
     'processor or entity; the identifier false is generated only without the identifier 0 (False == 0 in Python)',
+    'the bystander world is one fixed description behind a file handle at depth 1 of the same map, explored next to '
+    'file handles; next to it the second round starts once it is enabled and is the plain reload (no Disturb / Rewrite)',
+    'ResourceMap.split_char is "/" or ":" (chosen per behaviour from the description and the load mode)',
 ]
 
 
@@ -56,9 +63,9 @@ def printed(out, tag):
 
 
 def tables_from(out):
-    """(alphabet table, AltDesc) as printed by the two ASSUME PrintT of the spec."""
+    """(alphabet table, AltDesc, ByDesc) as printed by the ASSUME PrintT of the spec."""
     return ({tok: dict(s) for tok, s in printed(out, '"WORLDLOAD-SHAPES"')[1].items()},
-            printed(out, '"WORLDLOAD-ALTDESC"')[1])
+            printed(out, '"WORLDLOAD-ALTDESC"')[1], printed(out, '"WORLDLOAD-BYDESC"')[1])
 
 
 # -- dump loading: states are parsed on first use (in the replay workers), labels are 2-3 kB each -----------
@@ -133,18 +140,21 @@ def tlc_dump(res, fam, name):
     return g, tables
 
 
-def _l(md):
-    return ('Load', (md,))
+def _l(md, by=False):
+    return ('Load', (md, by))
 
 
-A, E, CH, D, RW, R = [(n, ()) for n in ('Access', 'Enable', 'ClearHandle', 'Disturb', 'Rewrite', 'Reload')]
+A, E, CH, D, RW, R, EB = [(n, ()) for n in ('Access', 'Enable', 'ClearHandle', 'Disturb', 'Rewrite', 'Reload', 'EnableBy')]
 # (behaviour, keep it when the description has no second round and the behaviour stops at ClearHandle?)
 SCRIPTS = [([_l('file1'), A, E, A, CH, D, R, A, E, A], True),        # mutated containers, fresh resource objects
            ([_l('file2'), A, E, A, CH, R, A, E, A], True),           # plain reload: cached resources stay the same objects
            ([_l('file1'), E, CH, RW, R, A, E, A], False),            # the file changed in between
            ([_l('file2'), E, CH, D, RW, R, A, E, A], False),
            ([_l('dict'), A, E, A], True),
-           ([_l('bare'), E], True)]
+           ([_l('bare'), E], True),
+           # next to a preloaded bystander world: enabled after the world under test (then a plain reload) / before it
+           ([_l('file1', True), A, E, A, EB, A, CH, R, A, E, A], True),
+           ([_l('file2', True), A, EB, A, E, A], True)]
 
 
 def scripted_paths(g):
